@@ -1,4 +1,5 @@
 import PbProofs.PhaseStr
+import PbModel.Gen.PhaseOrd
 
 /-! # C15 — Phase ordering, reductions and decimal I/O use the full two-part value
 
@@ -77,6 +78,41 @@ theorem C15_sort_key_list (l : List (ℤ × ℚ)) (hn : ∀ p ∈ l, |p.2| ≤ 1
     rw [List.pairwise_cons] at hs ⊢
     refine ⟨fun b hb => ?_, ih (fun p hp => hn p (List.mem_cons_of_mem _ hp)) hs.2⟩
     exact C15_sort_key x.1 b.1 x.2 b.2 (hn x (List.mem_cons_self ..)) (hn b (List.mem_cons_of_mem _ hb)) (hs.1 b hb)
+
+/-- row-major flat index of element `(i, j)` of an array with `c` columns, and its inverse (`np.unravel_index` for 2-D) -/
+def ravel2 (c i j : ℕ) : ℕ := i * c + j
+def unravel2 (c k : ℕ) : ℕ × ℕ := (k / c, k % c)
+
+/-- **flat indices**: `argmin(axis=None)` returns a row-major flat index, and `unravel_index` is its inverse — for every
+shape, so the element picked by `self[np.unravel_index(k, shape)]` is element `k` of the row-major flattening (which is what
+`argmin`/`argsort` counted), whatever the memory order of the buffer. -/
+theorem C15_unravel (c : ℕ) (hc : 0 < c) :
+    (∀ i j, j < c → unravel2 c (ravel2 c i j) = (i, j)) ∧ (∀ k, ravel2 c (unravel2 c k).1 (unravel2 c k).2 = k) ∧
+    (∀ k, (unravel2 c k).2 < c) := by
+  refine ⟨fun i j hj => ?_, fun k => ?_, fun k => Nat.mod_lt _ hc⟩
+  · simp only [unravel2, ravel2, Prod.mk.injEq]
+    constructor
+    · rw [Nat.add_comm, Nat.add_mul_div_right _ _ hc, Nat.div_eq_of_lt hj, Nat.zero_add]
+    · rw [Nat.add_comm, Nat.add_mul_mod_self_right, Nat.mod_eq_of_lt hj]
+  · simp only [unravel2, ravel2]
+    rw [Nat.mul_comm]; exact Nat.div_add_mod k c
+
+/-- **translator tie for the reductions**: the bodies of `Phase._take_along_axis`, `argmin`, `argmax`, `min`, `max`, `ptp`
+and `sort`, regenerated from `pulsar/phase.py` on every run, are the expressions the harness's oracle assumes — the index is
+computed on the exact-difference `(int − approx) + frac` (shifting by a common `approx` does not change which element is
+smallest: `C15_shift_value`), a flat index is turned into an element with `np.unravel_index(indices, self.shape)`
+(`C15_unravel`), and `min`/`max`/`sort` take the element at `argmin`/`argmax`/`argsort`. -/
+theorem C15_source_reductions :
+    Gen.PhaseOrd.extractOk = true ∧
+    Gen.PhaseOrd.flatTakeSrc = "self[np.unravel_index(indices, self.shape)]" ∧
+    Gen.PhaseOrd.axisTakeSrc = "if indices.ndim == self.ndim - 1: indices = np.expand_dims(indices, axis); result = np.take_along_axis(self, indices, axis); return result if keepdims else result.squeeze(axis)" ∧
+    Gen.PhaseOrd.argminSrc = "approx = np.min(self.cycle, axis, keepdims=True); dt = self['int'] - approx + self['frac']; return dt.argmin(axis, out)" ∧
+    Gen.PhaseOrd.argmaxSrc = "approx = np.max(self.cycle, axis, keepdims=True); dt = self['int'] - approx + self['frac']; return dt.argmax(axis, out)" ∧
+    Gen.PhaseOrd.minSrc = "return self._take_along_axis(self.argmin(axis), axis, keepdims)" ∧
+    Gen.PhaseOrd.maxSrc = "return self._take_along_axis(self.argmax(axis), axis, keepdims)" ∧
+    Gen.PhaseOrd.ptpSrc = "return self.max(axis, keepdims=keepdims) - self.min(axis, keepdims=keepdims)" ∧
+    Gen.PhaseOrd.sortSrc = "return self._take_along_axis(self.argsort(axis), axis, keepdims=True)" := by
+  exact ⟨rfl, rfl, rfl, rfl, rfl, rfl, rfl, rfl, rfl⟩
 
 example : shift [0] [1, 8] (-2) = ([], [0, 0, 1, 8]) ∧ shift [1, 2, 3] [4, 5, 6] 1 = ([1, 2, 3, 4], [5, 6]) ∧
     shift [1] [] 3 = ([1, 0, 0, 0], []) := by decide
